@@ -56,6 +56,7 @@ type bridgeSide struct {
 	CloseAfterWrites bool          // close once the plan is written
 	CloseDelay       time.Duration // extra wait before closing
 	Graceful         bool          // shut down the sending direction, read to end-of-stream, then close
+	ReadStall        time.Duration // the reader pauses this long before its first read and once more after it
 	// observations
 	Sent     int
 	SentDone time.Duration
@@ -71,7 +72,14 @@ type bridgeConn struct {
 	I      int
 	C, S   bridgeSide // client side, server side
 	SrvSaw bool
+	// Greeted: the server's unprompted greeting arrived before the client wrote anything
+	Greeted bool
 }
+
+// bridgeGreeting, if non-empty, is what the TCP server sends on every accepted
+// connection before it reads anything (a server-speaks-first protocol); clients
+// then wait for it before they write.
+var bridgeGreeting []byte
 
 func genSide(t *sim.Tape, thorough bool) bridgeSide {
 	var s bridgeSide
@@ -85,6 +93,7 @@ func genSide(t *sim.Tape, thorough bool) bridgeSide {
 	}
 	s.Pause = []time.Duration{0, 0, time.Millisecond, 50 * time.Millisecond}[t.Choice(4, "wpause")]
 	s.ReadBuf = []int{32 << 10, 1, 7, 1024, 4096, 100000}[t.Choice(6, "readbuf")]
+	s.ReadStall = []time.Duration{0, 0, 0, 1500 * time.Millisecond, 4 * time.Second}[t.Choice(5, "readstall")]
 	return s
 }
 
@@ -103,8 +112,16 @@ func runSide(w *World, c net.Conn, s *bridgeSide, content []byte, mu *sync.Mutex
 	go func() {
 		defer wg.Done()
 		buf := make([]byte, s.ReadBuf)
+		stalls := 0
+		if s.ReadStall > 0 {
+			time.Sleep(s.ReadStall)
+		}
 		for {
 			n, err := c.Read(buf)
+			if s.ReadStall > 0 && stalls == 0 && n > 0 && err == nil {
+				stalls++
+				time.Sleep(s.ReadStall)
+			}
 			mu.Lock()
 			s.Got = append(s.Got, buf[:n]...)
 			mu.Unlock()
@@ -153,6 +170,13 @@ func runSide(w *World, c net.Conn, s *bridgeSide, content []byte, mu *sync.Mutex
 	wg.Wait()
 }
 
+func chooseGreeting(w *World) {
+	bridgeGreeting = nil
+	if w.T.Rare(1, 3, "server-speaks-first") {
+		bridgeGreeting = []byte("220 greeting from the server\r\n")
+	}
+}
+
 // bridgeWorld runs n bridged connections; the server learns the connection's
 // index from an 8-byte tag the client sends first.
 func bridgeWorld(w *World, mu *sync.Mutex, conns []*bridgeConn, after func()) {
@@ -168,6 +192,9 @@ func bridgeWorld(w *World, mu *sync.Mutex, conns []*bridgeConn, after func()) {
 				return
 			}
 			go func() {
+				if len(bridgeGreeting) > 0 {
+					c.Write(bridgeGreeting)
+				}
 				tag := make([]byte, 8)
 				if _, err := io.ReadFull(c, tag); err != nil {
 					c.Close()
@@ -204,6 +231,19 @@ func bridgeWorld(w *World, mu *sync.Mutex, conns []*bridgeConn, after func()) {
 				bc.C.ReadErr = "dial: " + err.Error()
 				mu.Unlock()
 				return
+			}
+			if len(bridgeGreeting) > 0 {
+				g := make([]byte, len(bridgeGreeting))
+				if _, err := io.ReadFull(c, g); err != nil || !bytes.Equal(g, bridgeGreeting) {
+					mu.Lock()
+					bc.C.ReadErr = fmt.Sprintf("greeting: %v %q", err, g)
+					mu.Unlock()
+					c.Close()
+					return
+				}
+				mu.Lock()
+				bc.Greeted = true
+				mu.Unlock()
 			}
 			c.Write([]byte(fmt.Sprintf("conn%03d:", bc.I)))
 			runSide(w, c, &bc.C, prngBytes(fmt.Sprintf("c2s-%d", bc.I), bc.C.total()), mu)
@@ -273,6 +313,10 @@ func worldC15(w *World) {
 		conns[i] = &bridgeConn{I: i, C: genSide(t, thorough), S: genSide(t, thorough)}
 	}
 	passthrough := t.Rare(1, 3, "passthrough")
+	chooseGreeting(w)
+	if len(bridgeGreeting) > 0 {
+		passthrough = false // the greeting is not HTTP
+	}
 	passBody := "pass-body-" + strings.Repeat("z", t.Choice(3000, "passlen"))
 	passStatus := ""
 	mu := &sync.Mutex{}
@@ -290,20 +334,29 @@ func worldC15(w *World) {
 				passStatus = fmt.Sprintf("%d %s", resp.StatusCode, b)
 			}
 		}
-		// wait until every planned byte has had ample time to arrive
-		for i := 0; i < 200; i++ {
+		// wait until every planned byte has arrived, or nothing has moved for 30 s
+		last, still := -1, 0
+		for i := 0; i < 20000 && still < 60; i++ {
 			time.Sleep(500 * time.Millisecond)
 			mu.Lock()
 			done := true
+			got := 0
 			for _, bc := range conns {
 				if len(bc.S.Got) < bc.C.total() || len(bc.C.Got) < bc.S.total() {
 					done = false
 				}
+				got += len(bc.S.Got) + len(bc.C.Got)
 			}
 			mu.Unlock()
 			if done {
 				break
 			}
+			if got == last {
+				still++
+			} else {
+				still = 0
+			}
+			last = got
 		}
 		time.Sleep(time.Second)
 	})
@@ -315,10 +368,19 @@ func worldC15(w *World) {
 			w.Violation("crash", "node %s exited: %s", e.Node, e.Msg)
 		}
 		both := false
+		mu.Lock()
+		defer mu.Unlock()
 		for _, bc := range conns {
 			if bc.C.ReadErr != "" && strings.HasPrefix(bc.C.ReadErr, "dial") {
 				w.Violation("connect", "could not connect through the bridge | %s", bc.C.ReadErr)
 				continue
+			}
+			if len(bridgeGreeting) > 0 {
+				w.Probe("server_speaks_first")
+				if !bc.Greeted {
+					w.Violation("stream", "what the server sent before the client had written anything never reached the client | connection %d: %s", bc.I, bc.C.ReadErr)
+					continue
+				}
 			}
 			c2s := prngBytes(fmt.Sprintf("c2s-%d", bc.I), bc.C.total())
 			s2c := prngBytes(fmt.Sprintf("s2c-%d", bc.I), bc.S.total())
@@ -329,6 +391,9 @@ func worldC15(w *World) {
 			}
 			if bc.C.total() > 65536 || bc.S.total() > 65536 {
 				w.Probe("stream_larger_than_64k")
+			}
+			if (bc.C.ReadStall > 0 && bc.S.total() > 65536) || (bc.S.ReadStall > 0 && bc.C.total() > 65536) {
+				w.Probe("slow_reader_with_bulk_data")
 			}
 		}
 		if both {
@@ -377,6 +442,7 @@ func worldC16(w *World) {
 	if w.Tier == "thorough" {
 		n = t.Range(1, 24, "conns")
 	}
+	w.K.SendBuf = []int{64 << 10, 4 << 10, 1 << 10}[t.Choice(3, "sendbuf")]
 	conns := make([]*bridgeConn, n)
 	for i := range conns {
 		bc := &bridgeConn{I: i, C: genSide(t, false), S: genSide(t, false)}
@@ -397,6 +463,7 @@ func worldC16(w *World) {
 		conns[i] = bc
 	}
 	const budget = 60 * time.Second
+	chooseGreeting(w)
 	mu := &sync.Mutex{}
 	bridgeWorld(w, mu, conns, func() {
 		// everything is written and closed within ~10 s; then the budget
@@ -411,6 +478,8 @@ func worldC16(w *World) {
 		for _, e := range w.K.Exits {
 			w.Violation("crash", "node %s exited: %s", e.Node, e.Msg)
 		}
+		mu.Lock()
+		defer mu.Unlock()
 		for _, bc := range conns {
 			if !bc.SrvSaw {
 				w.Violation("connect", "a client connection never reached the TCP server through the bridge | connection %d", bc.I)
@@ -447,6 +516,9 @@ func worldC16(w *World) {
 					continue
 				}
 				w.Probe("graceful_close_complete_data")
+				if d.other.ReadStall > 0 && len(d.sent) > 65536 {
+					w.Probe("graceful_close_slow_reader_bulk_data")
+				}
 				if !bytes.Equal(d.other.Got, d.sent) {
 					w.Violation("close-propagation", "the surviving peer observed end-of-stream without having received everything sent before the close | %s got %d of %d bytes", d.name, len(d.other.Got), len(d.sent))
 				}
